@@ -54,6 +54,25 @@ def Fam.isGroup : Fam → Bool
   | .futGroup | .strGroup => true
   | _ => false
 
+/-- is child `ch` of family `f` a stream?  (`wait_until` over a stream: child 0, the deadline, is
+    a future) -/
+def Fam.childIsStream (f : Fam) (ch : Nat) : Bool :=
+  match f with
+  | .merge | .zip | .chain | .strGroup => true
+  | .waitS => ch != 0
+  | _ => false
+
+/-- the results a child of a given kind can produce at all (Rust's types enforce this): a future
+    never yields items or ends, a stream never resolves -/
+def Res.fits (stream : Bool) : Res → Bool
+  | .pend | .panic => true
+  | .ready _ _ => !stream
+  | .item _ | .fin => stream
+
+/-- every scripted step has the kind of its child -/
+def Case.kindOk (c : Case) : Prop :=
+  ∀ ch st, st ∈ c.scripts ch → st.res.fits (c.fam.childIsStream ch) = true
+
 namespace FEng
 
 def step (P : Policy Fix) (e : Eng Fix) : Op → Eng Fix
